@@ -319,3 +319,106 @@ contract(
     decreases={0: lambda payload, done: len(payload) + (0 if done else 1)},
     inline=['Message.payload'],
 )
+
+
+# ---------------------------------------------------------------------------
+# lemmas: sender packets through the assembler (both through their contracts)
+# ---------------------------------------------------------------------------
+from pyvc.contracts import ListOf, forall  # noqa: E402
+from spec.avdtp import header_byte  # noqa: E402
+
+
+def cut_at(cuts, payload, np, k):
+    """end offset of fragment k (0-based) of a message cut at `cuts`; the last fragment ends the payload"""
+    return ite(k >= np - 1, len(payload), at(cuts, k))
+
+
+def lemma_avdtp_roundtrip(asm, payload, label, mtype, sid, np, cuts):
+    """the packets the sender contract describes (SINGLE, or START(NOSP) CONTINUE* END with the same label and message
+    type, fragments of any sizes that concatenate to the payload) fed to the real assembler through its contract,
+    starting from ANY well-formed assembler state (idle, or in the middle of some other -- broken -- message)"""
+    if np == 1:
+        asm.on_pdu(bytes([header_byte(label, SINGLE, mtype), sid]) + payload)
+    else:
+        asm.on_pdu(bytes([header_byte(label, START, mtype), sid, np]) + payload[: cut_at(cuts, payload, np, 0)])
+        k = 1
+        while k < np:
+            t = END if k == np - 1 else CONTINUE
+            asm.on_pdu(bytes([header_byte(label, t, mtype)]) + payload[cut_at(cuts, payload, np, k - 1) : cut_at(cuts, payload, np, k)])
+            k = k + 1
+
+
+def cuts_ok(cuts, payload, np):
+    return [
+        len(cuts) >= np - 1,
+        forall(0, np - 1, lambda i: 0 <= cuts[i] and cuts[i] <= len(payload)),
+        forall(0, np - 2, lambda i: cuts[i] <= cuts[i + 1]),
+    ]
+
+
+RT_PARAMS = dict(asm=ASM, payload=Bytes, label=IntRange(0, 15), mtype=IntRange(0, 3), sid=IntRange(0, 63), np=IntRange(1, 255), cuts=ListOf(Int))
+RT_MOD = ['asm.transaction_label', 'asm.message', 'asm.message_type', 'asm.signal_identifier', 'asm.number_of_signal_packets', 'asm.packet_count',
+          'ghost.n', 'ghost.d_label', 'ghost.d_sid', 'ghost.d_type', 'ghost.d_payload']
+
+lemma(
+    'avdtp_roundtrip',
+    lemma_avdtp_roundtrip,
+    prop='C19',
+    params=RT_PARAMS,
+    ghost=ASM_GHOST,
+    requires=lambda asm, payload, np, cuts: [wf(asm)] + cuts_ok(cuts, payload, np),
+    ensures=lambda asm, payload, label, mtype, sid, old, ghost: [
+        ghost.n == old.ghost.n + 1,  # exactly one message is delivered
+        ghost.d_payload == payload,  # byte-identical
+        ghost.d_label == label and ghost.d_sid == sid and ghost.d_type == mtype,
+        clean(asm),  # ready for the next message: sequences of messages compose
+    ],
+    ensures_names=['delivered-exactly-once', 'byte-identical', 'label-signal-type', 'clean-afterwards'],
+    modifies=RT_MOD,
+    invariants={
+        0: lambda asm, payload, label, mtype, sid, np, cuts, k, old, ghost: [
+            1 <= k and k <= np,
+            wf(asm),
+            implies(k < np, in_progress(asm, label, mtype, sid, np, payload[: cut_at(cuts, payload, np, k - 1)], k) and ghost.n == old.ghost.n),
+            implies(k >= np, clean(asm) and delivered(old, ghost, label, sid, mtype, payload)),
+        ]
+    },
+    decreases={0: lambda np, k: np - k},
+    uses=['bumble.avdtp:MessageAssembler.on_pdu'],
+)
+
+
+def lemma_avdtp_wrong_count(asm, payload, label, mtype, sid, np, j, cuts):
+    """a fragment was dropped or duplicated: START announcing np packets, then j != np-2 continuations, then END"""
+    asm.on_pdu(bytes([header_byte(label, START, mtype), sid, np]) + payload[: cuts[0]])
+    i = 0
+    while i < j:
+        asm.on_pdu(bytes([header_byte(label, CONTINUE, mtype)]) + payload[cuts[i] : cuts[i + 1]])
+        i = i + 1
+    asm.on_pdu(bytes([header_byte(label, END, mtype)]) + payload[cuts[j] :])
+
+
+lemma(
+    'avdtp_dropped_or_duplicated_fragment_discards_message',
+    lemma_avdtp_wrong_count,
+    prop='C19',
+    params=dict(RT_PARAMS, j=IntRange(0, 1000)),
+    ghost=ASM_GHOST,
+    requires=lambda asm, payload, np, j, cuts: [wf(asm), np >= 2, j != np - 2, len(cuts) >= j + 2],
+    ensures=lambda asm, old, ghost: [
+        nothing_delivered(old, ghost),  # the incomplete / over-long message is not delivered, in whole or in part
+        clean(asm),  # and only that message is lost: the assembler is ready for the next one
+    ],
+    ensures_names=['nothing-delivered', 'clean-afterwards'],
+    modifies=RT_MOD,
+    invariants={
+        0: lambda asm, label, mtype, np, i, j, old, ghost: [
+            0 <= i and i <= j,
+            wf(asm),
+            nothing_delivered(old, ghost),
+            clean(asm) or (asm.message is not None and asm.packet_count == i + 1 and asm.number_of_signal_packets == np and asm.transaction_label == label and asm.message_type == mtype),
+        ]
+    },
+    decreases={0: lambda i, j: j - i},
+    uses=['bumble.avdtp:MessageAssembler.on_pdu'],
+)
